@@ -274,6 +274,122 @@ theorem C07_exchange_http (pre : List Step) (s : Step) (rest : List Step) (e : E
   rw [h1]
   exact rest_of_quiet_err bef e h2
 
+/-! ## every order of emit / log / finish / raise inside one step -/
+
+namespace Aux
+
+/-- shape invariant of the collector: logs, then possibly the data batch (at the recorded index) and more logs -/
+def CollInv (c : Coll) : Prop :=
+  (∃ L, c.dataIdx = none ∧ c.batches = logItems L) ∨
+  (∃ L1 b L2, c.dataIdx = some L1.length ∧ c.batches = logItems L1 ++ (Item.data b :: logItems L2))
+
+theorem logItems_length (L : List Log) : (logItems L).length = L.length := by simp [logItems]
+
+theorem filterIdx_none (n : Nat) (L : List Log) : filterIdx none n (logItems L) = logItems L := by
+  induction L generalizing n with
+  | nil => rfl
+  | cons l r ih => simp [logItems, filterIdx] at ih ⊢; exact ih (n + 1)
+
+theorem filterIdx_past (k n : Nat) (L : List Log) (h : k < n) : filterIdx (some k) n (logItems L) = logItems L := by
+  induction L generalizing n with
+  | nil => rfl
+  | cons l r ih =>
+    have hne : ¬ (some n = some k) := by intro h'; injection h' with h'; omega
+    simp only [logItems, List.map_cons, filterIdx, hne, if_false] at ih ⊢
+    rw [ih (n + 1) (by omega)]
+
+theorem filterIdx_data (n : Nat) (L1 L2 : List Log) (b : Batch) :
+    filterIdx (some (n + L1.length)) n (logItems L1 ++ (Item.data b :: logItems L2)) = logItems L1 ++ logItems L2 := by
+  induction L1 generalizing n with
+  | nil =>
+    simp only [logItems, List.map_nil, List.nil_append, List.length_nil, Nat.add_zero, filterIdx, if_true]
+    exact filterIdx_past n (n + 1) L2 (by omega)
+  | cons l r ih =>
+    have hne : ¬ (some n = some (n + (l :: r).length)) := by
+      intro h'; injection h' with h'; simp at h'
+    simp only [logItems, List.map_cons, List.cons_append, filterIdx, hne, if_false] at ih ⊢
+    have := ih (n + 1)
+    rw [show n + 1 + r.length = n + (l :: r).length by simp; omega] at this
+    rw [this]
+
+theorem logBatches_inv (c : Coll) (h : CollInv c) : ∃ L, logBatches c = logItems L := by
+  have hr : VgiVerif.Gen.LogDispatch.flushLogsHelperRecognised = true := by decide
+  simp only [logBatches, hr, if_true]
+  rcases h with ⟨L, hd, hb⟩ | ⟨L1, b, L2, hd, hb⟩
+  · exact ⟨L, by rw [hd, hb, filterIdx_none]⟩
+  · refine ⟨L1 ++ L2, ?_⟩
+    rw [hd, hb]
+    have := filterIdx_data 0 L1 L2 b
+    simp only [Nat.zero_add] at this
+    rw [this, Engine.Aux.logItems_append]
+
+theorem runOps_inv (pm : Bool) (ops : List Op) : ∀ c, CollInv c → CollInv (runOps pm c ops).1 := by
+  induction ops with
+  | nil => intro c h; exact h
+  | cons op r ih =>
+    intro c h
+    cases op with
+    | log l =>
+      simp only [runOps]
+      apply ih
+      rcases h with ⟨L, hd, hb⟩ | ⟨L1, b, L2, hd, hb⟩
+      · exact .inl ⟨L ++ [l], hd, by simp [hb, logItems]⟩
+      · exact .inr ⟨L1, b, L2 ++ [l], hd, by simp [hb, logItems]⟩
+    | emit b =>
+      rcases h with ⟨L, hd, hb⟩ | ⟨L1, b', L2, hd, hb⟩
+      · simp only [runOps, hd]
+        apply ih
+        exact .inr ⟨L, b, [], by simp [hb, logItems_length], by simp [hb, logItems]⟩
+      · simp only [runOps, hd]
+        exact .inr ⟨L1, b', L2, hd, hb⟩
+    | finish =>
+      simp only [runOps]
+      cases pm
+      · simpa using h
+      · simp only [if_true]
+        apply ih
+        rcases h with ⟨L, hd, hb⟩ | ⟨L1, b, L2, hd, hb⟩
+        · exact .inl ⟨L, hd, hb⟩
+        · exact .inr ⟨L1, b, L2, hd, hb⟩
+    | raise e => simpa [runOps] using h
+
+end Aux
+
+/-- **a failed step never hands its data batch to the client**: whatever the order of emit / client_log / finish /
+raise inside the call, a failing call writes only client-log batches and then the error batch -/
+theorem C07_failed_step_writes (pm : Bool) (ops : List Op) (items : List Item) (h : stepWrites pm ops = (items, true)) :
+    ∃ L e, items = logItems L ++ [.err e] := by
+  unfold stepWrites at h
+  have hinv := Aux.runOps_inv pm ops ⟨[], none, false⟩ (.inl ⟨[], rfl, rfl⟩)
+  rcases hr : runOps pm ⟨[], none, false⟩ ops with ⟨c, ex⟩
+  rw [hr] at h hinv
+  obtain ⟨L, hL⟩ := Aux.logBatches_inv c hinv
+  cases ex with
+  | some e =>
+    simp only [Prod.mk.injEq, and_true] at h
+    exact ⟨L, e, by rw [← h, hL]⟩
+  | none =>
+    simp only at h
+    split at h
+    · simp only [Prod.mk.injEq, and_true] at h
+      exact ⟨L, noDataExn, by rw [← h, hL]⟩
+    · simp at h
+
+/-- … so the client's read of that call — after whatever logs were still unread — ends in exactly the faithful error,
+on the socket family (`readUntilData`) and over HTTP (`Http.readExchange`, `Http.follow`) alike: it is never handed a batch -/
+theorem C07_failed_step_reaches_client (pm : Bool) (ops : List Op) (items : List Item) (carry : List Log)
+    (h : stepWrites pm ops = (items, true)) :
+    ∃ L e, readUntilData (logItems carry ++ items) = (Sem.lg (carry ++ L) ++ [errEv e], .raised) ∧
+           (Http.readExchange items).1 = Sem.lg L ++ [errEv e] := by
+  obtain ⟨L, e, rfl⟩ := C07_failed_step_writes pm ops items h
+  refine ⟨L, e, ?_, ?_⟩
+  · rw [← List.append_assoc, ← Engine.Aux.logItems_append, Engine.Aux.read_logs_err]
+  · rw [Engine.Aux.readExchange_logs]; simp [Http.readExchange]
+
+/-- non-vacuity: emit first, then log, then raise (exchange stream) -/
+example : stepWrites false [.emit ⟨7, 1, []⟩, .log ⟨"INFO".toList, "after".toList, []⟩, .raise ⟨"E".toList, "x".toList, none⟩]
+    = ([.log ⟨"INFO".toList, "after".toList, []⟩, .err ⟨"E".toList, "x".toList, none⟩], true) := by decide
+
 /-- non-vacuity of the step corollaries: a later step raising after logging -/
 example : AllEmit [⟨[], .emit ⟨1, 1, []⟩, []⟩] := by
   intro s hs; simp at hs; subst hs; exact ⟨_, rfl⟩
